@@ -8,4 +8,9 @@ cd "$WT" || exit 3
 git checkout -q -- . ; find . -name 'zz_seeded_demo*_test.go' -not -path './SEEDED/*' -delete
 git apply "SEEDED/$N/patch.diff" || { echo "triage: patch does not apply" >&2; exit 3; }
 trap 'git -C "$WT" checkout -q -- .' EXIT INT TERM
-VERIF_REPO="$WT" /verif/check "$ID" "$TIER" 2>&1 | grep -E "^tlsim: (violation|property=.*exit=|MACHINERY)|^VIOLATION|^KNOWN" | cut -c1-420 | head -8
+O=$(mktemp)
+VERIF_REPO="$WT" /verif/check "$ID" "$TIER" > "$O" 2>&1
+grep -E "^tlsim: violation" "$O" | cut -c1-420 | head -4
+grep -E "^VIOLATION|^KNOWN" "$O" | head -2
+grep -E "^tlsim: (property=.*exit=|MACHINERY)" "$O" | cut -c1-300 | tail -2
+rm -f "$O"
